@@ -343,7 +343,10 @@ public:
 	return std::nullopt;
       SectorAddress addr;
       const auto sectors_per_side = geom_.cylinders * geom_.sectors;
-      addr.head = lba / sectors_per_side;
+      // This object presents just one side of the disc, and the
+      // sectors recorded on side N carry head number N in their
+      // address (see check_track_is_supported()).
+      addr.head = static_cast<unsigned char>(side_);
       lba = lba % sectors_per_side;
       addr.cylinder = lba / geom_.sectors;
       addr.record = lba % geom_.sectors;
